@@ -1077,6 +1077,91 @@ example : svmClass [(0, [(1, Val.fin false 15 (-1))]), (1, [(0, Val.fin false 1 
               labels := .cls [0, 1] } := by decide
 
 open SharkVerif.Import.Export in
+/-- **C19, second sentence for `exportSparseData` → `importSparseData`, from bytes, for EVERY dataset of binary64
+values, without hypothesis on the tokens** (regression labels and class labels).  Every value the exporter prints
+is accepted by the importer again (`readBack_fmtG_some`: the printed decimal exponent stays within spirit's range
+`[-614, 308]`, never `1e+309`), so the import of the exported bytes succeeds and returns the dataset with the same
+structure — element count, indices, shape, batches, class labels exactly — whose values are `reimport6 v`: spirit's
+reading of `v` rounded to 6 significant decimal digits (`value_bytes_roundtrip_general`, `printed_decimal_is_nearest`). -/
+theorem libsvm_export_import_bytes_all (d bs limit : Nat) (sparse : Bool) :
+    (∀ (pts : List (Val × List (Nat × Val))),
+      (∀ p ∈ pts, isDouble p.1 = true ∧ ∀ q ∈ p.2, q.1 + 1 < 4294967296 ∧ isDouble q.2 = true) →
+      (∀ p ∈ pts, strictlyIncreasing (p.2.map (·.1)) = true ∧ ∀ q ∈ p.2, q.1 < d) →
+      (sparse = true ∨ (initBatches pts.length bs).foldl max 1 * d ≤ limit) →
+      Svm.importBytes { sparse := sparse, cls := false, dims := d, bs := bs, allocLimit := limit } (svmRegr pts) =
+        .ok { shape := some d, lshape := some 1, batches := initBatches pts.length bs,
+              rows := pts.map (fun p => if sparse then Row.sparse d (p.2.map fun q => (q.1, reimport6 q.2))
+                                        else Row.dense (denseRow Val.zero d (p.2.map fun q => (q.1, reimport6 q.2)))),
+              labels := .reg (pts.map fun p => [reimport6 p.1]) }) ∧
+    (∀ (pts : List (Nat × List (Nat × Val))) (omo : Bool),
+      (∀ p ∈ pts, p.1 + 1 < 2 ^ 31 ∧ ∀ q ∈ p.2, q.1 + 1 < 4294967296 ∧ isDouble q.2 = true) →
+      (∀ p ∈ pts, strictlyIncreasing (p.2.map (·.1)) = true ∧ ∀ q ∈ p.2, q.1 < d) →
+      pts ≠ [] → 0 ∈ pts.map (·.1) →
+      (sparse = true ∨ (initBatches pts.length bs).foldl max 1 * d ≤ limit) →
+      Svm.importBytes { sparse := sparse, cls := true, dims := d, bs := bs, allocLimit := limit } (svmClass pts omo false) =
+        .ok { shape := some d, lshape := some (numberOfClasses (pts.map (·.1))), batches := initBatches pts.length bs,
+              rows := pts.map (fun p => if sparse then Row.sparse d (p.2.map fun q => (q.1, reimport6 q.2))
+                                        else Row.dense (denseRow Val.zero d (p.2.map fun q => (q.1, reimport6 q.2)))),
+              labels := .cls (pts.map (·.1)) }) := by
+  constructor
+  · intro pts hv hidx hlimit
+    have h := libsvm_export_import_bytes
+      (pts.map fun p => ((p.1, reimport6 p.1), p.2.map fun q => (q.1, q.2, reimport6 q.2))) d bs limit sparse
+      (by
+        intro p' hp'
+        obtain ⟨p, hp, rfl⟩ := List.mem_map.mp hp'
+        refine ⟨(hv p hp).1, readBack_svmNum _ (hv p hp).1, ?_⟩
+        intro q' hq'
+        obtain ⟨q, hq, rfl⟩ := List.mem_map.mp hq'
+        exact ⟨((hv p hp).2 q hq).1, ((hv p hp).2 q hq).2, readBack_svmNum _ ((hv p hp).2 q hq).2⟩)
+      (by
+        intro p' hp'
+        obtain ⟨p, hp, rfl⟩ := List.mem_map.mp hp'
+        have := hidx p hp
+        simp only [List.map_map] at this ⊢
+        refine ⟨by simpa [Function.comp_def] using this.1, ?_⟩
+        intro q' hq'
+        obtain ⟨q, hq, rfl⟩ := List.mem_map.mp hq'
+        exact this.2 q hq)
+      (by simpa using hlimit)
+    simp only [List.map_map, List.length_map, Function.comp_def, List.map_id'] at h
+    have hid : (pts.map fun p => (p.1, p.2.map fun q => (q.1, q.2))) = pts := by
+      conv => rhs; rw [← List.map_id pts]
+      apply List.map_congr_left
+      intro p _
+      simp
+    simpa [hid] using h
+  · intro pts omo hv hidx hne h0 hlimit
+    have h := libsvm_export_import_bytes_class
+      (pts.map fun p => (p.1, p.2.map fun q => (q.1, q.2, reimport6 q.2))) omo d bs limit sparse
+      (by
+        intro p' hp'
+        obtain ⟨p, hp, rfl⟩ := List.mem_map.mp hp'
+        refine ⟨(hv p hp).1, ?_⟩
+        intro q' hq'
+        obtain ⟨q, hq, rfl⟩ := List.mem_map.mp hq'
+        exact ⟨((hv p hp).2 q hq).1, ((hv p hp).2 q hq).2, readBack_svmNum _ ((hv p hp).2 q hq).2⟩)
+      (by
+        intro p' hp'
+        obtain ⟨p, hp, rfl⟩ := List.mem_map.mp hp'
+        have := hidx p hp
+        simp only [List.map_map] at this ⊢
+        refine ⟨by simpa [Function.comp_def] using this.1, ?_⟩
+        intro q' hq'
+        obtain ⟨q, hq, rfl⟩ := List.mem_map.mp hq'
+        exact this.2 q hq)
+      (by simpa using hne)
+      (by simpa [List.map_map, Function.comp_def] using h0)
+      (by simpa using hlimit)
+    simp only [List.map_map, List.length_map, Function.comp_def] at h
+    have hid : (pts.map fun p => (p.1, p.2.map fun q => (q.1, q.2))) = pts := by
+      conv => rhs; rw [← List.map_id pts]
+      apply List.map_congr_left
+      intro p _
+      simp
+    simpa [hid] using h
+
+open SharkVerif.Import.Export in
 /-- **C19, byte-level round trip of a value in `%.<p>g` format, every binary64 value** (`exportSparseData`: `%.6g`;
 `exportCSV` with `scientific = false`: `%.10g`).  There are a mantissa `mant` and a count `z` of stripped trailing
 zeros with `mant · 10^z = ds`, `(ds, ex) = sciDigits (P-1) v` the value rounded to `P` significant digits, such
@@ -1089,8 +1174,9 @@ theorem value_bytes_roundtrip_general (p0 : Nat) (neg : Bool) (m : Nat) (e2 : In
       mant * 10 ^ z = (sciDigits ((if p0 = 0 then 1 else p0) - 1) (Val.fin neg m e2).ratOf.1 (Val.fin neg m e2).ratOf.2).1 ∧
       ∀ rest : List Char, NumEnd rest → real (fmtG p0 (Val.fin neg m e2) ++ rest) = scaled neg mant
         ((sciDigits ((if p0 = 0 then 1 else p0) - 1) (Val.fin neg m e2).ratOf.1 (Val.fin neg m e2).ratOf.2).2
-          - (((if p0 = 0 then 1 else p0) - 1 : Nat) : Int) + (z : Int)) rest :=
-  real_fmtG p0 neg m e2 hm hv
+          - (((if p0 = 0 then 1 else p0) - 1 : Nat) : Int) + (z : Int)) rest := by
+  obtain ⟨mant, z, h1, _, h2⟩ := real_fmtG p0 neg m e2 hm hv
+  exact ⟨mant, z, h1, h2⟩
 
 open SharkVerif.Import.Export in
 /-- non-vacuity: the three layouts of `%g` — `123.5`, `0.00025`, `1e+06` -/
